@@ -225,7 +225,7 @@ func c05BlockMoves(r *eng.Run, s *c07Sys) *eng.Fail {
 func c05Codes(r *eng.Run) []*c07Sys {
 	// besides the dependency alphabet: a third writer of x1 and a load/store pair on the
 	// same address which shares no written register (only memory orders them)
-	alpha := append(depAlphabet(), prog.Addi(1, 0, 3), prog.Ld(8, 2, 0), prog.Sd(3, 2, 0), prog.Sb(3, 2, 1))
+	alpha := append(depAlphabet(), prog.Addi(1, 0, 3), prog.Ld(8, 2, 0), prog.Sd(3, 2, 0), prog.Sb(3, 2, 1), prog.Jal(1, 4))
 	terms := []uint32{0, prog.Beq(1, 3, 8), prog.Jal(0, 8)}
 	maxLen := 3
 	if !r.Quick() {
@@ -282,7 +282,7 @@ func c05Codes(r *eng.Run) []*c07Sys {
 func init() {
 	checks["C05"] = eng.Check{
 		Hist:        true,
-		Rule:        "every block of <=3 (thorough 4) instructions over an 18-word alphabet chosen around the dependency rules (three writers of x1, reader, read-modify-write, sd/ld on one base with and without a shared register, a partially overlapping sb, fence, ecall, csrrw, amoadd.w, the pseudo-jumps jal x5,+4 and beq x0,x0,+4, auipc), optionally ended by a real terminating beq/jal, followed by nops, and every block of 2 (quick: a third of those of 3) SYNTHETIC instructions from the C06 alphabet (several stores into one / two spaces, several register writes, load+store of one space; synthetic registers hold one of three nearby addresses so that accesses alias in some initial states): explicit-state search over ALL orders reachable through accepted Block.Move calls (state = order; successor = fresh real code + replay + move); every reachable order is run in the real emulator from 3 initial states (aliasing and non-aliasing addresses, all registers preloaded) until pc leaves the block or a horizon, and compared (registers, writable-memory bytes, final pc, termination) with the run of the original order. A second pass walks ONE long-lived instance through a depth-2 (thorough 3) tour of accepted, rejected and undo moves and runs the emulator comparison in every node. Block moves on the 4 multi-block codes of C07: every pair of Code.Move calls leaves each instruction's address, text and single-step behaviour unchanged, and after every one or two block moves the order search of every block is repeated (instruction moves after block moves). Non-trivial = block with more than one reachable order.",
+		Rule:        "every block of <=3 (thorough 4) instructions over a 19-word alphabet chosen around the dependency rules (three writers of x1, reader, read-modify-write, a link-register write by the pseudo-jump jal x1,+4, sd/ld on one base with and without a shared register, a partially overlapping sb, fence, ecall, csrrw, amoadd.w, the pseudo-jumps jal x5,+4 and beq x0,x0,+4, auipc), optionally ended by a real terminating beq/jal, followed by nops, and every block of 2 (quick: a third of those of 3) SYNTHETIC instructions from the C06 alphabet (several stores into one / two spaces, several register writes, load+store of one space; synthetic registers hold one of three nearby addresses so that accesses alias in some initial states): explicit-state search over ALL orders reachable through accepted Block.Move calls (state = order; successor = fresh real code + replay + move); every reachable order is run in the real emulator from 3 initial states (aliasing and non-aliasing addresses, all registers preloaded) until pc leaves the block or a horizon, and compared (registers, writable-memory bytes, final pc, termination) with the run of the original order. A second pass walks ONE long-lived instance through a depth-2 (thorough 3) tour of accepted, rejected and undo moves and runs the emulator comparison in every node. Block moves on the 4 multi-block codes of C07: every pair of Code.Move calls leaves each instruction's address, text and single-step behaviour unchanged, and after every one or two block moves the order search of every block is repeated (instruction moves after block moves). Non-trivial = block with more than one reachable order.",
 		Assumptions: []string{"differential oracle: original order vs reordered order on the same emulator", "all registers are preloaded so the known narrow-first-read finding of C03 cannot influence the comparison"},
 		Run: func(r *eng.Run) {
 			codes := c05Codes(r)
